@@ -7,7 +7,7 @@ From PV Require Import Extract.RunC12.
 From PV Require Import Extract.RunC09.
 From PV Require Import Extract.RunC13.
 From PV Require Import Extract.RunC06.
-  Validators.TableStruct Extract.Codec Extract.RunC20.
+From PV Require Import Extract.RunC20.
 Import ListNotations.
 Local Open Scope N_scope.
 
